@@ -56,6 +56,7 @@ static SliceItemPtr sliceitem() {
   if (k == "ellipsis") return std::make_shared<SliceEllipsis>();
   if (k == "newaxis") return std::make_shared<SliceNewAxis>();
   if (k == "field") return std::make_shared<SliceField>(next());
+  if (k == "fields") { int64_t n = nint(); std::vector<std::string> ks; for (int64_t i = 0; i < n; i++) ks.push_back(next()); return std::make_shared<SliceFields>(ks); }
   if (k == "array" || k == "boolarray") {
     int64_t n = nint(); Index64 idx = rindex<int64_t>(n);
     std::vector<int64_t> shape({n}), strides({1});
@@ -120,6 +121,8 @@ static void run() {
       stack.push_back(std::make_shared<UnionArray8_64>(noid, noparams, t, i, cs)); }
     else if (c == "view") { int64_t a = nint(), b = nint(); ContentPtr x = pop(); stack.push_back(x.get()->getitem_range_nowrap(a, b)); }
     else if (c == "getitem") { int64_t k = nint(); Slice sl; for (int64_t i = 0; i < k; i++) sl.append(sliceitem()); sl.become_sealed(); ContentPtr x = pop(); stack.push_back(x.get()->getitem(sl)); }
+    else if (c == "getfield") { std::string k = next(); ContentPtr x = pop(); stack.push_back(x.get()->getitem_field(k)); }
+    else if (c == "getfields") { int64_t n = nint(); std::vector<std::string> ks; for (int64_t i = 0; i < n; i++) ks.push_back(next()); ContentPtr x = pop(); stack.push_back(x.get()->getitem_fields(ks)); }
     else if (c == "at") { int64_t a = nint(); ContentPtr x = pop(); stack.push_back(x.get()->getitem_at(a)); }
     else if (c == "slice") { int64_t a = nint(), b = nint(); ContentPtr x = pop(); stack.push_back(x.get()->getitem_range(a, b)); }
     else if (c == "carry") { int64_t n = nint(); Index64 i = rindex<int64_t>(n); ContentPtr x = pop(); stack.push_back(x.get()->carry(i, false)); }
